@@ -7,9 +7,12 @@ import (
 	"encoding/json"
 	"errors"
 	"fmt"
+	"runtime"
+	"sort"
 	"strings"
 	"sync"
 	"sync/atomic"
+	"time"
 
 	"pgregory.net/rapid"
 
@@ -90,6 +93,8 @@ func (o Op) String() string {
 		return fmt.Sprintf("Filter(p%d)", o.P)
 	case "map":
 		return fmt.Sprintf("Map(f%d)", o.P)
+	case "panic":
+		return fmt.Sprintf("%s(callback panics)", []string{"EachSafe", "Each", "Find"}[o.P%3])
 	}
 	return o.Kind
 }
@@ -134,6 +139,7 @@ func updFn(v string) string {
 
 // Apply executes op on both, comparing the callback traces. Returns "" or a deviation.
 func Apply(o Op, impl Map, m *Model) string {
+	_, modelOnly := impl.(nopMap) // (no callbacks come from it: nothing to compare, the model just moves on)
 	switch o.Kind {
 	case "set":
 		impl.Set(o.K, o.V)
@@ -143,7 +149,7 @@ func Apply(o Op, impl Map, m *Model) string {
 		got := ""
 		impl.Update(o.K, func(v string) string { calls++; got = v; return updFn(v) })
 		if i := m.idx(o.K); i >= 0 {
-			if calls != 1 || got != m.p[i].v {
+			if !modelOnly && (calls != 1 || got != m.p[i].v) {
 				return fmt.Sprintf("Update(%d): callback called %d times with %q, want once with %q", o.K, calls, got, m.p[i].v)
 			}
 			m.p[i].v = updFn(m.p[i].v)
@@ -153,10 +159,24 @@ func Apply(o Op, impl Map, m *Model) string {
 	case "delete":
 		impl.Delete(o.K)
 		m.Delete(o.K)
+	case "panic":
+		// a read-only walk whose callback panics; the caller recovers. The map is the caller's to
+		// use afterwards, unchanged.
+		func() {
+			defer func() { _ = recover() }()
+			switch o.P % 3 {
+			case 0:
+				impl.EachSafe(func(int, string) { panic("callback") })
+			case 1:
+				_ = impl.Each(func(int, string) error { panic("callback") })
+			default:
+				impl.Find(func(int, string) bool { panic("callback") })
+			}
+		}()
 	case "filter":
 		var trace []pair
 		impl.Filter(func(k int, v string) bool { trace = append(trace, pair{k, v}); return pred(o.P, k, v) })
-		if d := sameTrace("Filter", trace, m.p); d != "" {
+		if d := sameTrace("Filter", trace, m.p); d != "" && !modelOnly {
 			return d
 		}
 		var keep []pair
@@ -180,10 +200,10 @@ func Apply(o Op, impl Map, m *Model) string {
 			}
 			m.p[i].v = nv
 		}
-		if d := sameTrace("Map", trace, want); d != "" {
+		if d := sameTrace("Map", trace, want); d != "" && !modelOnly {
 			return d
 		}
-		if (err != nil) != (wantErr != nil) {
+		if !modelOnly && (err != nil) != (wantErr != nil) {
 			return fmt.Sprintf("Map returned %v, want %v", err, wantErr)
 		}
 	}
@@ -330,7 +350,25 @@ func RunCase(t run.TB, c Case, everyStep bool) {
 	keys := []int{0, 1, 2, 3, 4, 5, 6, 7, 99}
 	var kept []keptJSON
 	var d string
-	func() {
+	guarded := false
+	for _, o := range c.Ops {
+		guarded = guarded || o.Kind == "panic"
+	}
+	body := func(f func()) { f() }
+	if guarded {
+		// (an operation that never returns - a lock left behind by a walk that was left by a panic -
+		// cannot be reported through the test framework: the process ends with the case recorded)
+		body = func(f func()) {
+			done := make(chan struct{})
+			go func() { defer close(done); f() }()
+			select {
+			case <-done:
+			case <-time.After(20 * time.Second):
+				run.FailAndExit(Chk, c, "an operation did not return within 20 s after a read-only walk (EachSafe / Each / Find) had been left by a panic of its callback")
+			}
+		}
+	}
+	body(func() {
 		defer func() {
 			if r := recover(); r != nil {
 				d = fmt.Sprintf("panic: %v", r)
@@ -373,7 +411,7 @@ func RunCase(t run.TB, c Case, everyStep bool) {
 				}
 			}
 		}
-	}()
+	})
 	if d != "" {
 		run.Fail(t, Chk, c, "%s", d)
 	}
@@ -490,7 +528,9 @@ func Exhaustive(t run.TB, typ string, maxLen, shard, shards int) int64 {
 
 // RandomOp draws an op over a pool of 8 keys.
 func RandomOp(t *rapid.T) Op {
-	switch rapid.IntRange(0, 9).Draw(t, "op") {
+	switch rapid.IntRange(0, 10).Draw(t, "op") {
+	case 10:
+		return Op{Kind: "panic", P: rapid.IntRange(0, 2).Draw(t, "walk")}
 	case 0, 1, 2, 3:
 		return Op{Kind: "set", K: rapid.IntRange(0, 7).Draw(t, "k"), V: rapid.SampledFrom([]string{"a", "b", "ax", "by", "c"}).Draw(t, "v")}
 	case 4:
@@ -568,6 +608,86 @@ func consistent(impl Map) string {
 		if c != 1 || !impl.Has(k) {
 			return fmt.Sprintf("after concurrent use key %d is iterated %d times, Has=%v", k, c, impl.Has(k))
 		}
+	}
+	return ""
+}
+
+// Linearizable runs the plans (one goroutine each, few operations over three keys) on one map and
+// compares the final state with the final states of all interleavings of the same operations on the
+// reference model: an operation takes effect at one moment between its call and its return, so the
+// outcome has to be the outcome of SOME order (per goroutine the written one). Predicates and map
+// functions dawdle a little (they run inside the operation), which widens whatever window an
+// operation leaves open between looking and acting.
+func Linearizable(f func() Map, init []Op, plans [][]Op) string {
+	impl := f()
+	for _, o := range init {
+		Apply(o, impl, &Model{})
+	}
+	dawdle := func() {
+		for i := 0; i < 3; i++ {
+			runtime.Gosched()
+		}
+	}
+	var wg sync.WaitGroup
+	start := make(chan struct{})
+	for _, plan := range plans {
+		plan := plan
+		wg.Add(1)
+		go func() {
+			defer wg.Done()
+			<-start
+			for _, o := range plan {
+				switch o.Kind {
+				case "set":
+					impl.Set(o.K, o.V)
+				case "update":
+					impl.Update(o.K, updFn)
+				case "delete":
+					impl.Delete(o.K)
+				case "filter":
+					impl.Filter(func(k int, v string) bool { dawdle(); return pred(o.P, k, v) })
+				case "map":
+					impl.Map(func(k int, v string) (string, error) { dawdle(); return mapFn(o.P, k, v) })
+				}
+			}
+		}()
+	}
+	close(start)
+	wg.Wait()
+	var got []pair
+	impl.EachSafe(func(k int, v string) { got = append(got, pair{k, v}) })
+	// all interleavings on the model
+	finals := map[string]bool{}
+	idx := make([]int, len(plans))
+	var rec func(m Model)
+	rec = func(m Model) {
+		done := true
+		for g := range plans {
+			if idx[g] < len(plans[g]) {
+				done = false
+				m2 := Model{p: append([]pair(nil), m.p...)}
+				Apply(plans[g][idx[g]], nopMap{}, &m2)
+				idx[g]++
+				rec(m2)
+				idx[g]--
+			}
+		}
+		if done {
+			finals[fmt.Sprint(m.p)] = true
+		}
+	}
+	m0 := Model{}
+	for _, o := range init {
+		Apply(o, nopMap{}, &m0)
+	}
+	rec(m0)
+	if !finals[fmt.Sprint(got)] {
+		var all []string
+		for k := range finals {
+			all = append(all, k)
+		}
+		sort.Strings(all)
+		return fmt.Sprintf("final state %v is the outcome of no order of the operations; the possible outcomes are %v", got, all)
 	}
 	return ""
 }
